@@ -162,6 +162,7 @@ MUTANTS = [
     ("tagged-islt-swapped", "C15", "tagged.IsLt", "mypyc/lib-rt/CPy.h", "        return (Py_ssize_t)left < (Py_ssize_t)right;", "        return (Py_ssize_t)left <= (Py_ssize_t)right;", "violation"),
     ("int64-divide-rounding-sign", "C15", "fixed.CPyInt64_Divide", "mypyc/lib-rt/int_ops.c", "    if (((x < 0) != (y < 0)) && d * y != x) {\n        d--;\n    }\n    return d;\n}\n\nint64_t CPyInt64_Remainder", "    if ((x < 0) && d * y != x) {\n        d--;\n    }\n    return d;\n}\n\nint64_t CPyInt64_Remainder", "violation"),
     ("worker-replay-without-set-file", "C07", "replay", "mypy/build_worker/worker.py", "            manager.errors.set_file(state.xpath, id, state.options)\n", "", "violation"),
+    ("native-parser-arg-error-not-blocking", "C14", "parsers", "mypy/nativeparse.py", "                message_registry.ARG_CONSTRUCTOR_TOO_MANY_ARGS.value,\n                invalid.line,\n                invalid.column,\n                blocker=True,", "                message_registry.ARG_CONSTRUCTOR_TOO_MANY_ARGS.value,\n                invalid.line,\n                invalid.column,\n                blocker=False,", "violation"),
     ("enabled-parent-check-dropped", "C13", "is_error_code_enabled", "mypy/errors.py", "elif error_code.sub_code_of is not None and error_code.sub_code_of in current_mod_disabled:\n            return False", "elif error_code.sub_code_of is not None and error_code.sub_code_of in current_mod_enabled:\n            return False", "violation"),
 ]
 
